@@ -17,6 +17,7 @@ spec keys
   fs         sampling rate
   nsync      0 | 1
   ns         number of samples announced (fileTimeSecs = ns / fs, fileSizeBytes = ns * nc * 2)
+  acquiring  True => the three end-of-run keys (fileSHA1, fileSizeBytes, fileTimeSecs) are absent (run in progress)
   nidq: mn, ma, xa, dw, mn_gain, ma_gain, range
 """
 import numpy as np
@@ -168,9 +169,10 @@ def build_lines(spec):
     L.append("appVersion=20201103")
     L.append("fileCreateTime=2021-08-02T14:30:26")
     L.append(f"fileName=D:/data/run_g0/run_g0_imec0/run_g0_t0.imec0.{stream}.bin")
-    L.append("fileSHA1=C040C224559DD5FAB71AC1A1542049BA9D68A77E")
-    L.append(f"fileSizeBytes={ns * nc * 2}")
-    L.append(f"fileTimeSecs={_fmt_float(ns / fs)}")
+    if not spec.get("acquiring"):  # SpikeGLX writes these three only when the run ends
+        L.append("fileSHA1=C040C224559DD5FAB71AC1A1542049BA9D68A77E")
+        L.append(f"fileSizeBytes={ns * nc * 2}")
+        L.append(f"fileTimeSecs={_fmt_float(ns / fs)}")
     L.append("firstSample=110884048")
     L.append("gateMode=Immediate")
     L.append(f"imAiRangeMax={_fmt_float(spec['range'])}")
